@@ -74,6 +74,8 @@ func main() {
 		os.Exit(cmdCheck(os.Args[2:]))
 	case "func":
 		os.Exit(cmdFunc(os.Args[2:]))
+	case "replay":
+		os.Exit(cmdReplay(os.Args[2:]))
 	case "list":
 		// govc list [-exp] <substring>: function ids as used in contracts
 		exp := len(os.Args) > 2 && os.Args[2] == "-exp"
@@ -366,7 +368,7 @@ func cmdCheck(args []string) int {
 			payload := map[string]interface{}{"obligation": o.Name, "kind": o.Kind, "verdict": o.Verdict, "descr": o.Descr, "source": o.Pos, "smt": o.File, "solver": o.Solver, "model": truncate(o.Model, 20000), "solver_output": truncate(o.Output, 4000)}
 			reproduced := false
 			if o.Verdict == "refuted" {
-				reproduced = tryReplay(root, *repo, *prop, o, payload)
+				reproduced = replayObligation(root, *repo, *prop, c, o, payload)
 			}
 			violation(o.Name, payload, reproduced)
 		}
@@ -475,7 +477,3 @@ func writeEvidence(root, prop, tier string, seed int, reports []*funcReport, sam
 	_ = fns
 }
 
-// tryReplay: placeholder until replay templates exist for the obligation's function.
-func tryReplay(root, repo, prop string, o *Obligation, payload map[string]interface{}) bool {
-	return replayObligation(root, repo, prop, o, payload)
-}
